@@ -39,3 +39,83 @@ mod sse2;
     target_feature = "sse2",
 ))]
 pub(crate) type ChaChaEngine<const R: usize> = sse2::State<R>;
+
+// verification-only hooks (off by default): make the portable engine available next to the
+// active one on every target, behind thin public wrappers.
+#[cfg(all(
+    feature = "verif-hooks",
+    any(target_arch = "x86", target_arch = "x86_64"),
+    any(target_feature = "sse2", target_feature = "avx2")
+))]
+#[path = "reference.rs"]
+#[allow(dead_code)]
+mod reference;
+
+#[cfg(feature = "verif-hooks")]
+pub mod verif {
+    //! Verification-only wrappers over the ChaCha engines
+    macro_rules! wrap_engine {
+        ($name:ident, $inner:ty, $doc:expr) => {
+            #[doc = $doc]
+            #[derive(Clone)]
+            pub struct $name<const ROUNDS: usize>($inner);
+
+            impl<const ROUNDS: usize> $name<ROUNDS> {
+                /// initialize with a key (16 or 32 bytes) and a nonce (8, 12 or 16 bytes)
+                pub fn init(key: &[u8], nonce: &[u8]) -> Self {
+                    assert!(key.len() == 16 || key.len() == 32);
+                    assert!(nonce.len() == 8 || nonce.len() == 12 || nonce.len() == 16);
+                    Self(<$inner>::init(key, nonce))
+                }
+                /// run the rounds
+                pub fn rounds(&mut self) {
+                    self.0.rounds()
+                }
+                /// add back the initial state
+                pub fn add_back(&mut self, initial: &Self) {
+                    self.0.add_back(&initial.0)
+                }
+                /// set the 32 bits counter
+                pub fn set_counter(&mut self, counter: u32) {
+                    self.0.set_counter(counter)
+                }
+                /// set the 64 bits counter
+                pub fn set_counter64(&mut self, counter: u64) {
+                    self.0.verif_set_counter64(counter)
+                }
+                /// read the 64 bits counter
+                pub fn counter64(&self) -> u64 {
+                    self.0.verif_counter64()
+                }
+                /// increment the 32 bits counter
+                pub fn increment(&mut self) {
+                    self.0.increment()
+                }
+                /// increment the 64 bits counter
+                pub fn increment64(&mut self) {
+                    self.0.increment64()
+                }
+                /// output the 64 bytes of state
+                pub fn output_bytes(&self, output: &mut [u8]) {
+                    assert!(output.len() == 64);
+                    self.0.output_bytes(output)
+                }
+                /// output the first and last row of the state
+                pub fn output_ad_bytes(&self, output: &mut [u8; 32]) {
+                    self.0.output_ad_bytes(output)
+                }
+            }
+        };
+    }
+
+    wrap_engine!(
+        PortableEngine,
+        super::reference::State<ROUNDS>,
+        "The portable (reference) ChaCha engine"
+    );
+    wrap_engine!(
+        ActiveEngine,
+        super::ChaChaEngine<ROUNDS>,
+        "The ChaCha engine selected for this target"
+    );
+}
